@@ -22,7 +22,7 @@ func init() {
 			"ref/wsref strict decoder written from RFC 6455 §5 / RFC 7692 §7; compress/flate inflater trusted",
 		},
 		Serial:    false,
-		Budget:    map[string]time.Duration{"quick": 100 * time.Second, "thorough": 25 * time.Minute},
+		Budget:    map[string]time.Duration{"quick": 100 * time.Second, "thorough": 40 * time.Minute},
 		Bound:     map[string]string{"quick": "deviations <= 2, <= 2 messages", "thorough": "deviations <= 2 over the whole product with full value sets, <= 3 on a sub-lattice (B in {125,300}, every fourth size)"},
 		Scenarios: c02Scenarios,
 	})
